@@ -8,7 +8,7 @@ use risinglight_proto::rowset::BlockIndex;
 use risinglight_proto::rowset::block_checksum::ChecksumType;
 
 use super::{ColumnSeekPosition, SECONDARY_INDEX_MAGIC};
-use crate::storage::secondary::{INDEX_FOOTER_SIZE, verify_checksum};
+use crate::storage::secondary::{INDEX_FOOTER_SIZE, verify_stored_checksum};
 use crate::storage::{StorageResult, TracedStorageError};
 
 #[derive(Clone)]
@@ -29,7 +29,9 @@ impl ColumnIndex {
         self.indexes.len()
     }
 
-    pub fn from_bytes(data: &[u8]) -> StorageResult<Self> {
+    /// Decode a column index. `configured_checksum_type` is the checksum type the storage writes
+    /// (see [`verify_stored_checksum`]).
+    pub fn from_bytes(data: &[u8], configured_checksum_type: ChecksumType) -> StorageResult<Self> {
         // TODO(chi): error handling
         let mut index_data = &data[..data.len() - INDEX_FOOTER_SIZE];
         let mut footer = &data[data.len() - INDEX_FOOTER_SIZE..];
@@ -42,7 +44,7 @@ impl ColumnIndex {
         let checksum_type = ChecksumType::try_from(footer.get_i32())
             .map_err(|_| TracedStorageError::decode("invalid checksum type"))?;
         let checksum = footer.get_u64();
-        verify_checksum(checksum_type, index_data, checksum)?;
+        verify_stored_checksum(configured_checksum_type, checksum_type, index_data, checksum)?;
 
         let mut indexes = Vec::with_capacity(length);
         for _ in 0..length {
